@@ -426,3 +426,73 @@ Proof.
   destruct (uc_off_loop_ok fuel d m b s o off Hs Hnn Hf Ho (length s - o) o 0 fuel) as [p' Hp']; try lia.
   rewrite Hp'. xstep. unfold uc_off. rewrite skipn_length, Nat.sub_diag. reflexivity.
 Qed.
+
+(* uc_chr: Some q = the pointer into the string at offset q, None = the static "" *)
+Definition chr_val (b : nat) (r : option nat) : val :=
+  match r with Some q => VPtr b (Z.of_nat q) | None => VPtr G_lit__0 0 end.
+Definition uc_chr_loop : stmt := match fn_body cf_uc_chr with SSeq _ (SSeq w _) => w | _ => SSkip end.
+Definition uc_chr_ret : stmt := match fn_body cf_uc_chr with SSeq _ (SSeq _ r) => r | _ => SSkip end.
+Lemma uc_chr_f_step k t i off base : t <> [] ->
+  uc_chr_f (S k) t i off base =
+  if (i =? off) then Some base else uc_chr_f k (skipn (uc_next t) t) (i + 1) off (base + uc_next t).
+Proof. destruct t; [congruence|reflexivity]. Qed.
+Lemma uc_chr_f_nil k i off base :
+  uc_chr_f k [] i off base = if (off <? 0) || (i =? off) then Some base else None.
+Proof. destruct k; reflexivity. Qed.
+
+Lemma uc_chr_tail_ok F d m b s off fuel2 : str_at m b s -> nonul s -> (length s < F)%nat ->
+  forall k p i fuel, (length s - p <= k)%nat -> (p <= length s)%nat -> (k < fuel)%nat ->
+  0 <= i -> i + Z.of_nat (length s - p) <= 2147483647 ->
+  exists st',
+  match exec (callf cprog F (S (S d))) fuel uc_chr_loop (mkst [VPtr b (Z.of_nat p); VInt off; VInt i] m) with
+  | ONormal st1 => exec (callf cprog F (S (S d))) fuel2 uc_chr_ret st1
+  | o => o
+  end = OReturn (chr_val b (uc_chr_f k (skipn p s) i off p)) st' /\ memm st' = m.
+Proof.
+  intros Hs Hnn HF. pose proof (nonul_lt256 s Hnn) as H256.
+  assert (Hrange : forall i, 0 <= i -> i + 1 <= 2147483647 -> chk I32 (i + 1) = Ok (i + 1)).
+  { intros i H0 H1. apply chk_I32. lia. }
+  induction k as [|k IH]; intros p i fuel Hk Hp Hf Hi Hmax; (destruct fuel as [|fuel]; [lia|]);
+    unfold uc_chr_loop, uc_chr_ret; cbn [fn_body cf_uc_chr]; rewrite exec_while; xstep.
+  - assert (p = length s) as -> by lia. xload Hs H256 (length s). rewrite nthb_end by lia.
+    rewrite skipn_end by lia. rewrite uc_chr_f_nil. change (wrap I32 (wrap I8 (Z.of_N 0)) =? 0) with true. xstep.
+    destruct (off <? 0); xstep; [eexists; split; reflexivity|].
+    destruct (i =? off); xstep; eexists; split; reflexivity.
+  - destruct (Nat.eq_dec p (length s)) as [->|Hne].
+    + xload Hs H256 (length s). rewrite nthb_end by lia.
+      rewrite skipn_end by lia. rewrite uc_chr_f_nil. change (wrap I32 (wrap I8 (Z.of_N 0)) =? 0) with true. xstep.
+      destruct (off <? 0); xstep; [eexists; split; reflexivity|].
+      destruct (i =? off); xstep; eexists; split; reflexivity.
+    + xload Hs H256 p. rewrite (cc_z0i _ (nthb_lt256 s p H256)), nonul_nthb_nz by (auto; lia). xstep.
+      rewrite Hrange by lia. xstep.
+      rewrite uc_chr_f_step by (apply skipn_ne; lia).
+      destruct (i =? off); xstep; [eexists; split; reflexivity|].
+      rewrite (tr_uc_next m b s p d F Hs H256) by lia. xstep.
+      pose proof (uc_next_nonul (skipn p s) (nonul_skipn s p Hnn) (skipn_ne s p ltac:(lia))) as Hnx.
+      pose proof (uc_end_lt (skipn p s) (skipn_ne s p ltac:(lia))) as Hel. rewrite skipn_length in Hel.
+      destruct (IH (p + uc_next (skipn p s))%nat (i + 1) fuel) as [st' [E1 E2]]; try lia.
+      rewrite skipn_skipn. exists st'. split; [|exact E2]. rewrite <- E1. reflexivity.
+Qed.
+
+Lemma uc_chr_f_shift a : forall k t i off base,
+  uc_chr_f k t i off (a + base) = option_map (fun q => a + q)%nat (uc_chr_f k t i off base).
+Proof.
+  induction k as [|k IH]; intros t i off base; destruct t as [|x t]; cbn [uc_chr_f].
+  - destruct ((off <? 0) || (i =? off)); reflexivity.
+  - destruct (i =? off); reflexivity.
+  - destruct ((off <? 0) || (i =? off)); reflexivity.
+  - destruct (i =? off); [reflexivity|]. rewrite <- IH. f_equal. lia.
+Qed.
+
+Theorem tr_uc_chr m b s o off d fuel :
+  str_at m b s -> nonul s -> (o <= length s)%nat -> (length s < fuel)%nat ->
+  Z.of_nat (length s) <= 2147483647 ->
+  callf cprog fuel (S (S (S d))) F_uc_chr [VPtr b (Z.of_nat o); VInt off] m
+  = Ok (chr_val b (option_map (fun q => o + q)%nat (uc_chr (skipn o s) off)), m).
+Proof.
+  intros Hs Hnn Ho Hf Hmax. enter F_uc_chr cf_uc_chr. xstep.
+  destruct (uc_chr_tail_ok fuel d m b s off fuel Hs Hnn Hf (length s - o) o 0 fuel) as [st' [E1 E2]]; try lia.
+  unfold uc_chr_loop, uc_chr_ret in E1; cbn [fn_body cf_uc_chr] in E1. rewrite E1, E2.
+  unfold uc_chr. rewrite skipn_length. f_equal. f_equal. f_equal.
+  rewrite <- uc_chr_f_shift. f_equal. lia.
+Qed.
